@@ -303,6 +303,32 @@ theorem hoisted_take_closure_loses_closure :
     simp [includeStmtHoisted, includeStmtHoisted.go, setTopClosure] at this
   · simp [includeStmt, same_refl]
 
+/-- the override of the auto-escape mode never outlives `with_auto_escape`: whatever `f` does to the
+mode, when the override changed the mode the old one is back afterwards (Ok and Err alike) -/
+theorem withAutoEscape_mode (ae : Nat) (f : Body) (s : St) (o : Out) (h : s.autoEscape ≠ ae) :
+    (withAutoEscape ae f s o).2.1.autoEscape = s.autoEscape := by
+  simp [withAutoEscape, h]
+
+/-- with a callee that leaves the state alone (the formatter only reads it) the whole state is
+what it was, on both branches of the helper and for both outcomes -/
+theorem withAutoEscape_restores (ae : Nat) (f : Body) (hf : ∀ s o, (f s o).2.1 = s) (s : St) (o : Out) :
+    (withAutoEscape ae f s o).2.1 = s := by
+  unfold withAutoEscape
+  split
+  · exact hf s o
+  · simp [hf]
+
+/-- the inverted guard leaves the override installed whenever it changed the mode -/
+theorem withAutoEscapeInverted_leaks :
+    ∃ (f : Body) (s : St) (o : Out), (∀ s o, (f s o).2.1 = s) ∧
+      (withAutoEscapeInverted 2 f s o).2.1.autoEscape ≠ s.autoEscape ∧
+      (withAutoEscape 2 f s o).2.1 = s := by
+  refine ⟨fun s o => (.ok, s, o),
+    { frames := [], outerDepth := 0, instructions := 0, autoEscape := 0, currentBlock := none,
+      blocks := fun _ => none, loaded := [], pool := 0 }, ⟨0⟩, fun _ _ => rfl, ?_, ?_⟩
+  · simp [withAutoEscapeInverted]
+  · simp [withAutoEscape]
+
 /-- returning early on `Err` (before the caller's context is swapped back) is *not* a restore:
 the caller is left with the macro's frames and depth -/
 theorem earlyReturn_does_not_restore :
